@@ -7,7 +7,7 @@ from .hist import HistoryProp
 from .c07 import gfact, CONSTS
 
 E = 'e0'
-PREDS = [('p', 1), ('p', 2), ('q', 1), ('r', 0), ('q', 2), ('ext', 1)]
+PREDS = [('p', 1), ('p', 2), ('q', 1), ('r', 0), ('q', 2), ('ext', 1), ('p_1', 1), ('p_1', 0), ('q_n', 1)]
 CFG = gen.with_cfg(control=frozenset(['cut', ';', 'ite']), library=False, min_clauses=1, max_clauses=5, max_body=3,
                    preds=PREDS, undefined_calls=True, odd=False, eq_goals=True)
 RESERVED = ['variable', 'atom', 'functor', 'functor1', 'functor2', 'functor3', 'listpair', 'makelist', 'ATOM_NIL',
@@ -20,10 +20,10 @@ class C08(HistoryProp):
     title = 'Call resolution: facts first, exact arity, load order, late binding'
     technique = 'model-based (stateful) property testing: generated load/register/assert/clear histories vs. a list-of-definitions model executed by the reference interpreter'
     rule = ('histories of 6-25 operations on one engine: load(script, overwrite on/off) with scripts drawn per history '
-            'from a family over p/1, p/2, q/1, q/2, r/0, ext/1 (cuts, calls to predicates defined in other scripts or '
+            'from a family over p/1, p/2, q/1, q/2, r/0, ext/1, p_1/0, p_1/1, q_n/1, wide/10-11 (cuts, calls to predicates defined in other scripts or '
             'registered later, undefined predicates); loads that fail (syntax error appended to the source; NameError at '
             'module level after the definitions); register_function with inferred, explicit and variadic arity (exact '
-            'and variadic for one name; only for keys without a definition); assert_fact; clear; after every step '
+            'and variadic for one name; only for keys without a definition); assert_fact; clear; calls opened and left suspended across later loads and registrations; after every step '
             'queries of every key at arities 0-3 with all-variable arguments and of unknown and API-reserved names. '
             'Model: facts key -> list, definitions key -> list (overwrite replaces by [new], combine appends), variadic '
             'name -> definition; predicted answers = R over that model (each definition its own cut scope); a failing '
@@ -51,7 +51,9 @@ class C08(HistoryProp):
             scripts.append(clauses)
         defined = set()      # keys with a compiled or registered definition
         variadic = set()
-        names = ['p', 'q', 'r', 'ext']
+        names = ['p', 'q', 'r', 'ext', 'p_1', 'q_n']
+        open_q = []
+        qid = 0
 
         def probes():
             out = []
@@ -92,13 +94,31 @@ class C08(HistoryProp):
             elif k < 9:
                 f = gfact(src, src.pick([('p', 1), ('q', 1), ('r', 0), ('p', 2), ('ext', 1)]))
                 ops.append(['assert', E, f, src.n(3) != 2])
-            elif k == 9 and src.n(2):
+            elif k == 9 and src.n(2) and not open_q:
                 ops.append(['clear', E])
                 defined = set()
                 variadic = set()
+            elif k == 10 and defined and len(open_q) < 2:
+                # a call that stays suspended across later loads / registrations: it resolved when it was made
+                qid += 1
+                name, n = src.pick(sorted(defined))
+                ops.append(['open', E, qid, ('f', name, tuple(('v', 'Q%d' % i) for i in range(n))) if n else ('a', name)])
+                ops.append(['step', qid])
+                open_q.append(qid)
+            elif k == 11 and open_q:
+                q = src.pick(open_q)
+                ops.append(['step', q])
+                if src.n(2):
+                    ops.append(['step', q])
+                    ops.append(['close', q])
+                    open_q.remove(q)
             else:
                 pass
             ops.extend(probes())
+        for q in open_q:
+            ops.append(['step', q])
+            ops.append(['step', q])
+            ops.append(['close', q])
         return {'ops': ops}
 
     def classify(self, case, ops, robs, ref):
